@@ -316,7 +316,7 @@ class C15(Check):
     floor_nontrivial = 30
     required_counters = ("configs_built", "modifications_compared", "angle_evals", "invalid_sets_tried")
     shards = (8, 16)
-    budget = (70, 500)
+    budget = (300, 500)
 
     def cases(self, tier, seed):
         n = 1200 if tier == "quick" else 24000
